@@ -814,3 +814,378 @@ def _kernel(ctx, repo) -> None:
                       f"complex_exponential returns {p.key()}, not cos(x) + i*sin(x): the shift direction flips",
                       key_detail="expsign")
     ctx.require(n_exp >= 1, "complex_exponential: no cos/sin/exp return found")
+
+
+# =============================================================================================
+# ---- added after the mutation sweep (round 4): how the coordinate vectors are assembled into positions,
+# ---- the axis layout of the shift kernel, and the emptiness guards
+_inner_run_c20 = run
+
+
+def _derives_from(f: FuncInfo, df: DataFlow, st: ast.stmt, value: ast.expr, pred) -> bool:
+    """Does `value` (evaluated at statement `st`) contain, or depend through local definitions on, a call
+    satisfying `pred`?"""
+    if any(isinstance(c, ast.Call) and pred(c) for c in ast.walk(value)):
+        return True
+    sl = df.backward_slice(df.cfg.node_of(st).idx, value)
+    for n in sl.def_nodes:
+        a = df.cfg.nodes[n].ast
+        roots = [a.iter] if isinstance(a, ast.For) else [a] if a is not None else []
+        for r in roots:
+            if any(isinstance(c, ast.Call) and pred(c) for c in walk_no_nested(r)):
+                return True
+    return False
+
+
+def _emptiness(t: ast.expr, is_positions) -> Optional[str]:
+    """'empty' / 'nonempty' when the test, if true, says that the position list has no / some members."""
+    if isinstance(t, ast.UnaryOp) and isinstance(t.op, ast.Not):
+        v = _emptiness(t.operand, is_positions)
+        return None if v is None else ("nonempty" if v == "empty" else "empty")
+
+    def count(e: ast.expr) -> bool:
+        if isinstance(e, ast.Call) and call_name(e) == "len" and len(e.args) == 1:
+            return is_positions(e.args[0])
+        if isinstance(e, ast.Attribute) and e.attr == "size":
+            return is_positions(e.value)
+        if isinstance(e, ast.Subscript) and isinstance(e.value, ast.Attribute) and e.value.attr == "shape" and \
+                isinstance(e.slice, ast.Constant) and e.slice.value == 0:
+            return is_positions(e.value.value)
+        return False
+
+    if count(t):
+        return "nonempty"
+    if isinstance(t, ast.Compare) and len(t.ops) == 1:
+        a, op, b = t.left, t.ops[0], t.comparators[0]
+        if count(b) and isinstance(a, ast.Constant):
+            flip = {ast.Lt: ast.Gt, ast.Gt: ast.Lt, ast.LtE: ast.GtE, ast.GtE: ast.LtE}
+            a, b, op = b, a, flip.get(type(op), type(op))()
+        if count(a) and isinstance(b, ast.Constant) and isinstance(b.value, int) and not isinstance(b.value, bool):
+            c = b.value
+            if isinstance(op, ast.Eq) and c == 0 or isinstance(op, ast.Lt) and c == 1 or isinstance(op, ast.LtE) and c == 0:
+                return "empty"
+            if isinstance(op, ast.NotEq) and c == 0 or isinstance(op, ast.Gt) and c == 0 or isinstance(op, ast.GtE) and c == 1:
+                return "nonempty"
+    return None
+
+
+def _nonempty_guard(ctx, f: FuncInfo, produces, is_positions, what: str, fallback: str) -> int:
+    """Every `return` of `f` whose value does not come from `produces` is taken only when there are no positions."""
+    from .c18 import enclosing_tests
+
+    df = DataFlow(f.node)
+    rets = [st for st in walk_no_nested(f.node) if isinstance(st, ast.Return)]
+    ctx.require(bool(rets), f"{f.qualname}: no return statement")
+    full = [st for st in rets if st.value is not None and _derives_from(f, df, st, st.value, produces)]
+    ctx.require(bool(full), f"{f.qualname}: no return value is produced by {what}")
+    n = 0
+    for st in full:
+        conds = enclosing_tests(f.node, st)
+        bad = [t for t, br in conds if (_emptiness(t, is_positions), br) in (("empty", True), ("nonempty", False))]
+        n += 1
+        ctx.check(not bad, "R-NONEMPTY", f"{f.qualname}:result", f.loc(st),
+                  f"the result built by {what} is returned whenever there are positions",
+                  f"the result built by {what} is returned only inside a guard (`{norm_text(bad[0])[:50] if bad else ''}`) "
+                  "that holds for an empty position list: a scan with positions never gets it", key_detail="result")
+    k = 0
+    for st in rets:
+        if st in full:
+            continue
+        conds = enclosing_tests(f.node, st)
+        # an `if` without else that ends in a return guards everything after it: collect those too
+        pol = [(_emptiness(t, is_positions), br) for t, br in conds]
+        k += 1
+        if any(p in (("empty", True), ("nonempty", False)) for p in pol):
+            ctx.ok("R-NONEMPTY", f"{f.qualname}:fallback#{k}", f.loc(st), f"{fallback} only without positions")
+        elif any(p[0] is not None for p in pol) or not conds:
+            ctx.violation("R-NONEMPTY", f"{f.qualname}:fallback#{k}", f.loc(st),
+                          f"`{norm_text(st)[:60]}` ({fallback}) is returned although the scan has positions: the "
+                          f"guard around it is true for a non-empty position list, so {what} is never reached for them",
+                          key_detail="fallback")
+        else:
+            raise AnalysisError(f"{f.qualname}: `{norm_text(st)[:50]}` is guarded by "
+                                f"`{norm_text(conds[-1][0])[:50]}`, which is not a test of the number of positions")
+    return n + k
+
+
+def _real_dtype(e: ast.expr) -> Optional[bool]:
+    if isinstance(e, ast.Call) and (call_name(e) or "").split(".")[-1] == "get_dtype":
+        c = kw(e, "complex") if kw(e, "complex") is not None else (e.args[0] if e.args else None)
+        if c is None:
+            return None
+        if isinstance(c, ast.Constant) and isinstance(c.value, bool):
+            return not c.value
+        return None
+    d = dotted(e) or (e.value if isinstance(e, ast.Constant) and isinstance(e.value, str) else None)
+    if d is not None:
+        d = d.split(".")[-1]
+        if d in ("float", "float32", "float64", "float16", "double", "single"):
+            return True
+        if d in ("complex", "complex64", "complex128", "cfloat", "cdouble", "csingle"):
+            return False
+    return None
+
+
+class _ScanHooks:
+    """Leaves of the layout interpretation of a scan's get_positions()."""
+
+    def __init__(self, cls: ClassInfo, vector_gpts: bool):
+        from ..rules import axislayout as L
+
+        self.L, self.cls, self.vector = L, cls, vector_gpts
+
+    def _field(self, q: str):
+        L = self.L
+        two = q in ("start", "end") or self.vector
+        if two:
+            return tuple(L.Sc(Poly.atom(f"{q}{i}")) for i in range(2))
+        return L.Sc(Poly.atom(q))
+
+    def name(self, ident, interp):
+        if ident == "cp":
+            return None
+        return NotImplemented
+
+    def attr(self, base, attr, interp):
+        L = self.L
+        if isinstance(base, L.Obj) and base.tag == "self":
+            q = attr.lstrip("_")
+            if q in ("start", "end", "gpts", "endpoint") and (attr == q or attr == "_" + q):
+                return self._field(q)
+            g = self.cls.find_method(attr, "getter")
+            if g is not None and g.is_property:
+                r = interp.run(g.body, {g.positional_params[0]: base})
+                if r is not None and r[0] == "return":
+                    return r[1]
+        return NotImplemented
+
+    def call(self, fname, args, kwargs, node, interp):
+        L = self.L
+        short = fname.split(".")[-1]
+        if short == "get_dtype":
+            return L.OPAQUE
+        if short == "linspace":
+            b = dict(zip(("start", "stop", "num"), args))
+            b.update(kwargs)
+            if not all(k in b and isinstance(b[k], L.Sc) for k in ("start", "stop", "num")):
+                raise AnalysisError(f"{self.cls.name}: linspace(start, stop, num) over something other than the scan's "
+                                    f"scalar parameters")
+            num = b["num"].poly.key()
+            lab = {"1*gpts0": "g0", "1*gpts1": "g1", "1*gpts": "t"}.get(num)
+            if lab is None:
+                raise AnalysisError(f"{self.cls.name}: the number of samples `{num}` is not the scan's gpts")
+            return L.LA((lab,), _lin_atom(b["start"].poly, b["stop"].poly, b["num"].poly))
+        return NotImplemented
+
+
+def _lin_atom(s: Poly, e: Poly, n: Poly) -> Poly:
+    k = lambda p: p.key().replace("1*", "")
+    return Poly.atom(f"lin({k(s)},{k(e)},{k(n)})")
+
+
+def _positions_layout(ctx, repo, line: ClassInfo, grid: ClassInfo) -> None:
+    from ..rules import axislayout as L
+    from ..rules.absint import DomainError
+
+    A = Poly.atom
+    cases = [
+        (grid, True, ("g0", "g1", L.COMP), (_lin_atom(A("start0"), A("end0"), A("gpts0")),
+                                            _lin_atom(A("start1"), A("end1"), A("gpts1"))),
+         "positions[i, j] == (x_i, y_j): axes (x, y, component), component order (x, y)"),
+        (line, False, ("t", L.COMP), (_lin_atom(A("start0"), A("end0"), A("gpts")),
+                                      _lin_atom(A("start1"), A("end1"), A("gpts"))),
+         "positions[k] == (x_k, y_k): axes (point, component), component order (x, y)"),
+    ]
+    for cls, vec, axes, val, txt in cases:
+        f = cls.own_method("get_positions")
+        ctx.require(f is not None, f"{cls.name}.get_positions not found")
+        it = L.LayoutInterp(_ScanHooks(cls, vec), {"g0": 3, "g1": 5, "t": 7})
+        want = L.LA(axes, val)
+        env = {f.positional_params[0]: L.Obj("self")}
+        for p, d in f.defaults().items():
+            env[p] = d.value if isinstance(d, ast.Constant) else L.OPAQUE
+        try:
+            r = it.run(f.body, env)
+        except DomainError as e:
+            ctx.violation("R-POSITIONS", f"{f.qualname}:layout", f.loc(e.node) if e.node is not None else f.where,
+                          f"assembling the positions fails for a {cls.name} with defined start/end/gpts: {e}",
+                          key_detail="layout")
+            continue
+        except L.Raises as e:
+            ctx.violation("R-POSITIONS", f"{f.qualname}:layout", f.where,
+                          f"get_positions() raises {e.name} for a {cls.name} with defined start, end and gpts",
+                          key_detail="layout")
+            continue
+        got = r[1] if r is not None and r[0] == "return" else None
+        if not isinstance(got, L.LA):
+            raise AnalysisError(f"{f.qualname}: the layout interpreter did not reach an array result")
+        ctx.check(it.same(got, want), "R-POSITIONS", f"{f.qualname}:layout", f.where, txt,
+                  f"get_positions() returns an array with {L.describe(got)}; expected {L.describe(want)} "
+                  f"({txt}; g0/g1 = grid axes of x/y, t = point index, C = component axis)", key_detail="layout")
+
+
+class _KernelHooks:
+    def __init__(self):
+        from ..rules import axislayout as L
+
+        self.L = L
+
+    def name(self, ident, interp):
+        if ident == "cp":
+            return None
+        return NotImplemented
+
+    def attr(self, base, attr, interp):
+        return NotImplemented
+
+    def call(self, fname, args, kwargs, node, interp):
+        L = self.L
+        short = fname.split(".")[-1]
+        if short == "get_array_module":
+            return L.MOD
+        if short == "get_dtype":
+            return L.OPAQUE
+        if short == "complex_exponential" and len(args) == 1:
+            return interp.exp(args[0])
+        if short == "spatial_frequencies":
+            b = dict(zip(("gpts", "sampling"), args))
+            b.update(kwargs)
+            g, s = b.get("gpts"), b.get("sampling")
+            if not (isinstance(g, (tuple, list)) and isinstance(s, (tuple, list))) or b.get("return_grid"):
+                raise AnalysisError("fft_shift_kernel: spatial_frequencies(gpts, sampling) with non-sequence arguments")
+            out = []
+            for n_, _ in zip(g, s):
+                lab = interp.label_of_size(n_, node)
+                out.append(L.LA((lab,), Poly.atom(f"f[{lab}]")))
+            return tuple(out)
+        return NotImplemented
+
+
+def _kernel_layout(ctx, repo) -> None:
+    from ..rules import axislayout as L
+    from ..rules.absint import DomainError
+
+    k = repo.function(FFT, "fft_shift_kernel")
+    p_pos, p_shape = k.positional_params[:2]
+    sizes = {"b0": 3, "b1": 5, "s0": 7, "s1": 11}
+    A = Poly.atom
+    for n in (1, 2, 0):
+        batch = tuple(f"b{j}" for j in range(n))
+        it = L.LayoutInterp(_KernelHooks(), sizes)
+        pos = L.LA(batch + (L.COMP,), (A("p0"), A("p1")))
+        expo = Poly.const(-2) * A("π") * (A("f[s0]") * A("p0") + A("f[s1]") * A("p1"))
+        want = it.exp(L.LA(batch + ("s0", "s1"), expo))
+        cname = f"{k.qualname}:layout:{n} batch axes"
+        txt = (f"for positions of shape ({', '.join(batch + ('2',))}) the kernel has axes ({', '.join(want.axes)}) "
+               f"and equals exp(-2πi(k_x·x + k_y·y))")
+        try:
+            r = it.run(k.body, {p_pos: pos, p_shape: (sizes["s0"], sizes["s1"])})
+        except DomainError as e:
+            ctx.violation("R-KERNELAXES", cname, k.loc(e.node) if e.node is not None else k.where,
+                          f"building the shift kernel for positions of shape ({', '.join(batch + ('2',))}) and a "
+                          f"{sizes['s0']}x{sizes['s1']} grid fails: {e}", key_detail=f"n{n}")
+            continue
+        got = r[1] if r is not None and r[0] == "return" else None
+        if not isinstance(got, L.LA):
+            raise AnalysisError(f"{k.qualname}: the layout interpreter did not reach an array result")
+        ctx.check(it.same(got, want), "R-KERNELAXES", cname, k.where, txt,
+                  f"for positions of shape ({', '.join(batch + ('2',))}) the kernel comes out with "
+                  f"{L.describe(got)[:300]}; expected axes ({', '.join(want.axes)}) holding "
+                  f"exp(-2π(f[s0]·p0 + f[s1]·p1)) (b = position axes, s0/s1 = grid axes, p0/p1 = x/y of the position)",
+                  key_detail=f"n{n}")
+
+
+def run(ctx) -> None:  # noqa: F811
+    ctx.rule("R-POSITIONS", "get_positions() assembles the per-axis coordinate vectors into a position list with the "
+             "documented layout: GridScan positions[i, j] == (x_i, y_j) — grid axes in the order (x, y), the (x, y) pair "
+             "on the last axis — and LineScan positions[k] == (x_k, y_k); decided by executing the assembly code "
+             "(meshgrid / stack / reshape / transposes and the python control flow around them) over labelled axes "
+             "(sa/rules/axislayout.py) for a scan with defined start, end and gpts.  A different stacking axis, "
+             "meshgrid indexing or a guard that returns a single coordinate vector hands the probe builder and the "
+             "measurement axes positions that are not the lattice start + (i, j)*sampling")
+    ctx.rule("R-KERNELAXES", "fft_shift_kernel places the position axes first and the grid axes last and multiplies "
+             "one phase ramp per dimension: executed over labelled axes for 0, 1 and 2 position axes the result has "
+             "axes (positions..., kx, ky) and equals exp(-2πi Σ_d k_d x_d) — the ramp of dimension d depends on "
+             "component d of the position only and varies along grid axis d only, every dimension occurs exactly once "
+             "(products of exponentials are compared by their summed exponents)")
+    ctx.rule("R-NONEMPTY", "the early exits for a scan without positions are taken only then: in "
+             "BaseScan._evaluate_kernel every return whose value does not come from fft_shift_kernel, and in "
+             "CustomScan.ensemble_axes_metadata every return that lists no PositionsAxis, is guarded by a test that is "
+             "true only for an empty position list (len(...) == 0 and its equivalents); the full result is not guarded "
+             "by emptiness")
+    ctx.rule("R-REALCOORD", "scan coordinates are real numbers: a dtype handed to the coordinate-generating linspace "
+             "calls of GridScan/LineScan is a real floating type (get_dtype(complex=False) or a float type)")
+    repo = ctx.repo
+    line = repo.cls(SCAN, "LineScan")
+    grid = repo.cls(SCAN, "GridScan")
+    pending: list[AnalysisError] = []
+    for step in (lambda: _positions_layout(ctx, repo, line, grid), lambda: _kernel_layout(ctx, repo),
+                 lambda: _guards(ctx, repo), lambda: _real_coords(ctx, [line, grid])):
+        try:
+            step()
+        except AnalysisError as e:
+            pending.append(e)
+    _inner_run_c20(ctx)
+    if pending:
+        raise pending[0]
+
+
+def _guards(ctx, repo) -> None:
+    f = repo.method(SCAN, "BaseScan", "_evaluate_kernel")
+    df = DataFlow(f.node)
+
+    from ..cfg import uses_of
+
+    derived: set[str] = set()
+    changed = True
+    while changed:
+        changed = False
+        for d in df.defs:
+            if d.value is None or d.var in derived:
+                continue
+            if any(isinstance(c, ast.Call) and call_name(c) == "self.get_positions" for c in ast.walk(d.value)) or \
+                    uses_of(d.value) & derived:
+                derived.add(d.var)
+                changed = True
+
+    def is_pos(e: ast.expr) -> bool:
+        # the value of self.get_positions(), directly or through locals
+        if isinstance(e, ast.Name):
+            return e.id in derived
+        return isinstance(e, ast.Call) and call_name(e) == "self.get_positions"
+
+    n = _nonempty_guard(ctx, f, lambda c: call_name(c) == "fft_shift_kernel", is_pos, "fft_shift_kernel",
+                        "the identity kernel")
+    cs = repo.cls(SCAN, "CustomScan")
+    g = cs.own_method("ensemble_axes_metadata", "getter")
+    ctx.require(g is not None, "CustomScan.ensemble_axes_metadata not found")
+    n += _nonempty_guard(ctx, g, lambda c: call_name(c) == "PositionsAxis",
+                         lambda e: dotted(e) in ("self.positions", "self._positions"), "PositionsAxis",
+                         "an empty axes list")
+    ctx.require(n >= 4, f"R-NONEMPTY examined only {n} returns")
+
+
+def _real_coords(ctx, classes: list[ClassInfo]) -> None:
+    n = 0
+    for c in classes:
+        for defs in c.methods.values():
+            for f in defs:
+                for call in [x for x in walk_no_nested(f.node) if isinstance(x, ast.Call) and (
+                        call_name(x) or "").split(".")[-1] == "linspace"]:
+                    d = kw(call, "dtype")
+                    if d is None or not any(ALIAS.get(dotted(x) or "") in ("start", "end") for a in call.args[:2]
+                                            for x in ast.walk(a)) and not any(
+                            isinstance(x, ast.Name) and x.id in ("start", "end") for a in call.args[:2] for x in ast.walk(a)):
+                        continue
+                    r = _real_dtype(d)
+                    if r is None:
+                        raise AnalysisError(f"{f.qualname}: dtype `{norm_text(d)[:40]}` of a coordinate linspace is not "
+                                            "recognised")
+                    n += 1
+                    used = sum(1 for x in walk_no_nested(f.node) if isinstance(x, ast.Call) and (
+                        call_name(x) or "").split(".")[-1] == "linspace" and x.lineno <= call.lineno)
+                    ctx.check(r, "R-REALCOORD", f"{f.qualname}:linspace#{used}", f.loc(call),
+                              "coordinates are generated with a real dtype",
+                              f"`dtype={norm_text(d)}`: the scan coordinates are generated as complex numbers",
+                              key_detail="dtype")
+    ctx.require(n >= 4, f"R-REALCOORD matched only {n} coordinate linspace calls with a dtype")
